@@ -6,7 +6,7 @@
 # Scratch lives under /tmp/mutcheck and is reused between calls (incremental builds); remove
 # it with `tools/mutcheck.sh --clean`.
 set -e
-ROOT=/tmp/mutcheck
+ROOT=${MUTCHECK_ROOT:-/tmp/mutcheck}
 if [ "$1" = "--clean" ]; then
   git -C /repo worktree remove --force $ROOT/repo 2>/dev/null || true
   rm -rf $ROOT; git -C /repo worktree prune; exit 0
